@@ -169,7 +169,22 @@ func (cls *CachedLocations) Open(ctx *Context, sys *System, name string, check b
 	}
 
 	cls.Unlock()
+	if check {
+		err = checkCreated(ctx, loc, name)
+	}
 	return loc, err
+}
+
+// checkCreated is the existence check for a location that is already
+// cached.  The cached instance can have been opened without that check
+// (as somebody's parent, say), so a hit in the cache doesn't mean that
+// the location was created.
+func checkCreated(ctx *Context, loc *Location, name string) error {
+	created, err := locationCreated(ctx, loc)
+	if err == nil && !created {
+		err = NewNotFoundError("%s", name)
+	}
+	return err
 }
 
 // Release checks whether the location has expired and, if so, closes
@@ -278,6 +293,9 @@ func (cl *CachedLocation) Get(ctx *Context, sys *System, name string, checkExist
 	} else {
 		Log(DEBUG, ctx, "CachedLocation.Get", "name", name, "opening", false)
 		ctx.SetLoc(loc)
+		if checkExists {
+			err = checkCreated(ctx, loc, name)
+		}
 	}
 	cl.Unlock()
 
